@@ -40,6 +40,13 @@ def dec_text(x):
 def gen_x(rng):
     k = rng.choice([0, 1, -1, 2, -2, 7, -7, rng.randint(-50, 50), rng.randint(-10 ** 6, 10 ** 6), rng.randint(-10 ** 30, 10 ** 30)])
     r = rng.random()
+    if rng.random() < 0.03:
+        # a denominator that reaches the top of a machine word once round(x, -j) has scaled it by 10^j; the matching digits argument
+        # is remembered with the value
+        n, d, j = boundary.scaled_denominator(rng)
+        x = BFraction(n, d)
+        x._n_hint = -j
+        return x
     if rng.random() < 0.04:
         # machine-word boundaries in the reduced numerator (-2^63 over an odd denominator, 2^64 + 1 over 10 ...): fixed-width
         # fast paths in floor/ceil/round (seed C10-c); plus the same with a half added
@@ -126,10 +133,29 @@ def gen_composed(rng):
 
 def shard(p):
     acc = Acc()
+    if p["shard"] % 4 == 3:
+        acc.context = {"trace_logging": True}
     rng = rng_for(p["seed"], PID, p["shard"])
     cases = []
     pending = []
     for _ in range(p["n"]):
+        if rng.random() < 0.04:
+            # whole numbers of 10-45 digits rounded to tens ... to 10^40: the remainder modulo 10^|n| runs through every machine-word
+            # width (a u64 remainder doubled for the comparison with 10^19 loses its top bit, seed C10-h)
+            nd = rng.randint(10, 45)
+            x = Fraction(rng.choice([1, -1]) * rng.randint(10 ** (nd - 1), 10 ** nd - 1))
+            if rng.random() < 0.3:
+                # ... with the part that is cut off just below / at / above one half
+                j = rng.randint(1, min(nd - 1, 40))
+                half = 5 * 10 ** (j - 1)
+                x = Fraction((abs(x.numerator) // 10 ** j) * 10 ** j + half + rng.choice([-1, 0, 0, 1, rng.randint(0, half - 1)])) * (1 if x > 0 else -1)
+                n = -j
+            else:
+                n = -rng.randint(1, min(nd + 1, 40))
+            unit = rng.choice(UNITS)
+            xs_u = str(x.numerator) + unit
+            cases.append(("round(%s,%d)" % (xs_u, n), xs_u, exact.round_digits(x, n), (x, unit, n)))
+            continue
         if rng.random() < 0.06:
             t = gen_composed(rng)
             try:
@@ -158,13 +184,17 @@ def shard(p):
             cases.append((q, None, "error", None))
         elif fn == "round2":
             n = rng.randint(-6, 6)
+            if getattr(x, "_n_hint", None) is not None and rng.random() < 0.7:
+                n = x._n_hint
+            if rng.random() < 0.08:
+                n = rng.randint(-40, 40)          # beyond the everyday range: the definition is the same for every n
             q = "round(%s,%d)" % (xs_u, n)
             cases.append((q, xs_u, exact.round_digits(x, n), (x, unit, n)))
         else:
             q = "%s(%s)" % (fn, xs_u)
             cases.append((q, xs_u, exact.call(fn, [x]), (x, unit, 0)))
     for kind in p["builds"]:
-        d = Driver(p["bins"][kind])
+        d = Driver(p["bins"][kind], env={"RUST_LOG": "anything=trace"} if p["shard"] % 4 == 3 else None)      # every fourth shard: trace logging enabled
         try:
             reqs = []
             for q, arg, _, _ in cases:
@@ -245,6 +275,7 @@ def run(tier, seed):
 def replay(path):
     v = json.load(open(path))
     c = v["case"]
-    with Driver(build.build(c.get("build", "dbg"))["vdriver"]) as d:
+    from core.driver import replay_env
+    with Driver(build.build(c.get("build", "dbg"))["vdriver"], env=replay_env(c)) as d:
         print(json.dumps({"query": c["query"], "expected": c["expected"], "now": d.call({"op": "query", "q": c["query"]})}, ensure_ascii=False))
     return 0
